@@ -213,7 +213,7 @@ def _encode_kind(rec, kind):
 D2 = [("warm", "T"), ("inv", "T"), ("T", "inv"), ("mul", "inv"), ("inv", "mul"), ("neg", "inv"), ("sqrt", "inv"), ("inv", "sqrt"),
       ("mul", "sqrt"), ("div", "T"), ("mul", "mul"), ("inv", "inv"), ("sqrt", "T")]
 D2_K2_QUICK = [("warm", "T"), ("inv", "T"), ("T", "inv"), ("mul", "inv"), ("inv", "mul"), ("neg", "inv")]
-QUICK_D2_KINDS = ["pos_diagonal", "tri_lower", "dense_square", "dense_square_lu_transposed", "lowrank_square_neg", "scaled_orthogonal", "inv_lu", "lowrank_square_k2",
+QUICK_D2_KINDS = ["pos_diagonal", "tri_lower", "dense_square", "dense_square_lu_transposed", "dense_pd", "lowrank_square_neg", "scaled_orthogonal", "inv_lu", "lowrank_square_k2",
                   "lowrank_square_k2_cap"]
 HEAVY = ("lowrank_pd", "dense_pd_product")  # Cholesky/sqrtm chains: seconds per obligation
 
